@@ -20,26 +20,27 @@ import (
 const modPath = "github.com/hujm2023/go-sms-protocol"
 
 type World struct {
-	Repo     string
-	Root     string // /verif
-	Pkgs     []*packages.Package
-	Prog     *ssa.Program
-	Fset     *token.FileSet
-	SSAPkg   map[string]*ssa.Package
-	Specs    map[string]*FuncSpec // key -> spec
-	Pures    map[string]*PureDef  // "pkg.name" and "name" (unique)
-	Lemmas   []*LemmaSpec
-	Layouts  map[string]*LayoutType // "pkgpath.Type"
-	SpecErr  []string
-	Files    []string // contract files
-	loops    map[*ssa.Function]*loopInfo
-	Known    map[string]*KnownFinding
-	Uninterp map[string]*UninterpDef
-	OnlyProp string
+	Repo        string
+	Root        string // /verif
+	Pkgs        []*packages.Package
+	Prog        *ssa.Program
+	Fset        *token.FileSet
+	SSAPkg      map[string]*ssa.Package
+	Specs       map[string]*FuncSpec // key -> spec
+	Pures       map[string]*PureDef  // "pkg.name" and "name" (unique)
+	Lemmas      []*LemmaSpec
+	Layouts     map[string]*LayoutType // "pkgpath.Type"
+	SpecErr     []string
+	Files       []string // contract files
+	loops       map[*ssa.Function]*loopInfo
+	Known       map[string]*KnownFinding
+	Uninterp    map[string]*UninterpDef
+	OnlyProp    string
+	tags        map[string]int
 	recLocals   map[string][]localDecl
 	renameCache map[*ssa.Function]map[string]string
-	Covers   bool // generate clause-cover queries (thorough tier)
-	debug    map[*ssa.Function]map[string][]*ssa.DebugRef
+	Covers      bool // generate clause-cover queries (thorough tier)
+	debug       map[*ssa.Function]map[string][]*ssa.DebugRef
 }
 
 func LoadWorld(repo, root string) (*World, error) {
